@@ -31,7 +31,7 @@ SeqMatch(ts, cs) ==
     ELSE cs # <<>> /\ TokMatch(Head(ts), Head(cs)) /\ SeqMatch(Tail(ts), Tail(cs))
 
 \* names are single characters, except the temporary names ("~k"), which no pattern of the universe matches
-NameChars(n) == IF n \in {"a", "b", "c", "w", "s", "f", "u"} THEN <<n>> ELSE <<n, "#">>
+NameChars(n) == IF n \in {"a", "b", "c", "d", "e", "w", "s", "f", "u", "t", "B"} THEN <<n>> ELSE <<n, "#">>
 SegMatches(seg, n) == IF seg \in DOMAIN SegTokens THEN SeqMatch(SegTokens[seg], NameChars(n)) ELSE seg = n
 
 \* names of a set in listing order
@@ -44,7 +44,10 @@ RECURSIVE JoinStr(_)
 JoinStr(ps) == IF ps = <<>> THEN "" ELSE IF Len(ps) = 1 THEN ps[1] ELSE ps[1] \o "/" \o JoinStr(Tail(ps))
 PathStr(abs, ps) == IF abs THEN "/" \o JoinStr(ps) ELSE IF ps = <<>> THEN "." ELSE JoinStr(ps)
 \* printing below a chroot-like wrapper: the first k components (the base path) are not shown
-PathStrK(abs, ps, k) == PathStr(abs, IF abs THEN SubSeq(ps, k + 1, Len(ps)) ELSE ps)
+\* (k >= 100: the pattern was relative to a virtual working directory - print relative, without the first k-100 components)
+PathStrK(abs, ps, k) ==
+    IF k >= 100 THEN PathStr(FALSE, SubSeq(ps, k - 100 + 1, Len(ps)))
+    ELSE PathStr(abs, IF abs THEN SubSeq(ps, k + 1, Len(ps)) ELSE ps)
 
 (***************************************************************************)
 (* filepath.Glob: segment-wise matching against the listings of the        *)
